@@ -36,7 +36,7 @@ func oneCallTo(fn *ssa.Function, suffix string) ssa.CallInstruction {
 
 func c30(r *Run) {
 	w := r.W
-	r.rule("C30.R1", "K12", "ExecuteActions: per-action view = (declared keys, storage filled from VM state), same actor/action ID/time/rules as declared", 8)
+	r.rule("C30.R1", "K12", "ExecuteActions: every view = (union of all declared keys as in a transaction, storage filled from VM state by read error), same actor/action ID/time/rules as declared", 10)
 	r.rule("C30.R2", "K1", "ExecuteActions: commit after each successful action; outputs appended in order; read errors returned; action limit enforced", 5)
 	r.rule("C30.R3", "K1", "SimulateActions: recording scope given to the view over current state; keys copied after Execute and before clear; cleared per action", 7)
 	r.rule("C30.R4", "K6", "SimulatedKeys.Has records (union) and grants; Keys.Add unions permissions", 3)
@@ -55,11 +55,57 @@ func c30(r *Run) {
 			ska, nva, eca := callArgs(sk), callArgs(nv), callArgs(ec)
 			at := r.at(w, ec)
 			// NewView(ts, scope, storage, n); Execute(action, ctx, rules, mu, time, actor, actionID)
-			r.check(len(nva) == 4 && sameValue(nva[1], sk.Value()), "C30.R1", "ExecuteActions:view-scope=declared-keys", r.at(w, nv), "", "the view's scope is not the action's declared StateKeys")
-			r.check(len(eca) == 7 && sameValue(eca[3], nv.Value()), "C30.R1", "ExecuteActions:execute-on-that-view", at, "", "the action does not execute on the view scoped by its declared keys")
-			r.check(len(eca) == 7 && len(ska) == 3 && term(eca[0]) == term(ska[0]), "C30.R1", "ExecuteActions:same-action", at, "", "StateKeys and Execute are called on different actions")
+			// The scope of every action's view is the scope a transaction gives all of its actions: the union of the
+			// keys declared by every action of the list (Keys.Add over every entry of every action's StateKeys).
+			var scope ssa.Value
+			if len(nva) == 4 {
+				scope = strip(nva[1])
+			}
+			ad := oneCallTo(ex, "(state.Keys).Add")
+			okU := scope != nil && ad != nil
+			why := "the view's scope is not built with Keys.Add from the actions' declared StateKeys"
+			if okU {
+				ada := callArgs(ad)
+				_, isMap := scope.(*ssa.MakeMap)
+				okU = isMap && len(ada) == 3 && sameValue(strip(ada[0]), scope) &&
+					rangeElem(ada[1], sk.Value(), 1) && rangeElem(ada[2], sk.Value(), 2)
+				if okU {
+					// every entry of every action: the only conditions on the Add are the two loops'
+					for _, c := range condStrings(ctrlConds(ad.Block())) {
+						if !isLoopCond(c) {
+							okU, why = false, "an entry of an action's declared keys can be left out of the scope: "+c
+						}
+					}
+					// complete before any action runs
+					if reachableFrom(nv, ad) {
+						okU, why = false, "the scope is still being extended after the first view was created"
+					}
+				}
+			}
+			r.check(okU, "C30.R1", "ExecuteActions:view-scope=union-of-declared-keys", r.at(w, nv), "scope = Keys.Add over every entry of every action's StateKeys, complete before the first view", why)
+			if ad != nil {
+				okF := false
+				for _, o := range returnOutcomes(ex) {
+					if o.NonNil && hasMatch(o.Conds, "!(state.Keys).Add(*") {
+						okF = true
+					}
+				}
+				r.check(okF, "C30.R1", "ExecuteActions:invalid-key-rejected", r.at(w, ad), "", "a declared key that Keys.Add refuses (a transaction with it is rejected) does not fail the request")
+			}
+			r.check(len(eca) == 7 && sameValue(eca[3], nv.Value()), "C30.R1", "ExecuteActions:execute-on-that-view", at, "", "the action does not execute on the view scoped by the declared keys")
+			r.check(len(eca) == 7 && len(ska) == 3 && term(eca[0]) == term(ska[0]), "C30.R1", "ExecuteActions:same-action", at, "", "StateKeys and Execute do not range over the same action list")
 			r.check(len(eca) == 7 && len(ska) == 3 && term(eca[5]) == term(ska[1]) && term(eca[5]) == "p2.Actor", "C30.R1", "ExecuteActions:same-actor", at, "", "StateKeys and Execute do not both receive the request's actor")
-			r.check(len(eca) == 7 && len(ska) == 3 && term(eca[6]) == term(ska[2]) && strings.HasPrefix(term(eca[6]), "chain.CreateActionID("), "C30.R1", "ExecuteActions:same-action-id", at, "",
+			// the action ID is derived from the action's own position in both calls
+			ownID := func(a []ssa.Value, idArg int) bool {
+				t := term(a[idArg])
+				const pre = "chain.CreateActionID(ago/ids.Empty, uint8("
+				if !strings.HasPrefix(t, pre) || !strings.HasSuffix(t, "))") {
+					return false
+				}
+				idx := strings.TrimSuffix(strings.TrimPrefix(t, pre), "))")
+				return strings.HasSuffix(term(a[0]), "["+idx+"]")
+			}
+			r.check(len(eca) == 7 && len(ska) == 3 && ownID(ska, 2) && ownID(eca, 6), "C30.R1", "ExecuteActions:same-action-id", at, "",
 				"StateKeys and Execute receive different action IDs: keys derived from the action ID are declared for one ID and used with another ("+term(ska[2])+" vs "+term(eca[6])+")")
 			gra := callArgs(gr)
 			r.check(len(eca) == 7 && sameValue(eca[2], gr.Value()) && len(gra) == 2 && sameValue(eca[4], gra[1]), "C30.R1", "ExecuteActions:rules-of-the-execution-time", at, "", "the rules passed to Execute are not the rules of the timestamp passed to Execute")
@@ -70,32 +116,41 @@ func c30(r *Run) {
 			}
 			mus := findEffects(ex, "mapupdate makemap(map[string][]byte)[string(*)] = (api.VM).ReadState(*)#0[*]")
 			okS := stor != nil && len(mus) == 1
+			absentByErr := false
 			if okS {
 				mu := mus[0].Ins.(*ssa.MapUpdate)
 				okS = sameValue(mu.Map, stor) || term(mu.Map) == term(stor)
-				// the only filter is value != nil
+				// the only filter is 'this key was not found'
 				for _, c := range mus[0].Conds() {
 					if !(strings.Contains(c, "ReadState(") || strings.Contains(c, "builtin.len(") || strings.Contains(c, "range(")) {
 						okS = false
 					}
+					if glob("(api.VM).ReadState(*)#1[*] == nil", c) {
+						absentByErr = true
+					}
+					if glob("(api.VM).ReadState(*)#0[*] != nil", c) {
+						absentByErr = false
+						break
+					}
 				}
 			}
 			r.check(okS, "C30.R1", "ExecuteActions:storage-filled-from-VM-state", r.at(w, rs), "storage[key_i] = value_i for every value read", "the view's storage is not the map filled with every value read from the VM state")
+			r.check(okS && absentByErr, "C30.R1", "ExecuteActions:absent-iff-read-error", r.at(w, rs), "", "a key is left out of the action's storage because its value is nil rather than because the read reported it not found: an existing key with an empty value looks absent to the action but not to the chain")
 			// the keys read are all declared keys
 			rsa := callArgs(rs)
 			okK := false
-			if len(rsa) == 3 {
+			if len(rsa) == 3 && scope != nil {
 				t := term(rsa[2])
-				okK = strings.Contains(t, "[]byte(next(range("+term(sk.Value())) || strings.Contains(t, "[]byte(next(range((chain.Action).StateKeys(")
+				okK = strings.Contains(t, "[]byte(next(range("+term(scope)+"))#1)")
 				for _, e := range findEffects(ex, "call builtin.append(*[[]byte(next(range(*") {
 					for _, c := range e.Conds() {
-						if !(strings.Contains(c, "next(range(") || strings.Contains(c, "builtin.len(")) {
+						if !isLoopCond(c) {
 							okK = false
 						}
 					}
 				}
 			}
-			r.check(okK, "C30.R1", "ExecuteActions:reads-every-declared-key", r.at(w, rs), "", "the keys read from the VM state are not all keys of the action's declared StateKeys")
+			r.check(okK, "C30.R1", "ExecuteActions:reads-every-declared-key", r.at(w, rs), "", "the keys read from the VM state are not all keys of the scope")
 
 			// R2
 			r.successGuards(w, "C30.R2", "ExecuteActions:commit-after-success", ec, cm)
@@ -194,6 +249,44 @@ func c30(r *Run) {
 	}
 }
 
+// isLoopCond: the condition only says that a range / index loop is (or has finished) iterating.
+func isLoopCond(c string) bool {
+	c = strings.TrimPrefix(c, "!")
+	if strings.HasPrefix(c, "next(range(") && strings.HasSuffix(c, ")#0") && balanced(c[:len(c)-2]) {
+		// only the iterator's 'ok' component, never a test of the element
+		return true
+	}
+	if strings.Contains(c, ")#1") || strings.Contains(c, ")#2") {
+		return false // a test of an iteration element (or of a second result)
+	}
+	return strings.Contains(c, "builtin.len(")
+}
+
+// rangeElem reports whether v is component idx (1 key, 2 value) of a range iteration over src.
+func rangeElem(v, src ssa.Value, idx int) bool {
+	for {
+		switch x := v.(type) {
+		case *ssa.ChangeType:
+			v = x.X
+			continue
+		case *ssa.Convert:
+			v = x.X
+			continue
+		}
+		break
+	}
+	ex, ok := v.(*ssa.Extract)
+	if !ok || ex.Index != idx {
+		return false
+	}
+	nx, ok := ex.Tuple.(*ssa.Next)
+	if !ok {
+		return false
+	}
+	rg, ok := nx.Iter.(*ssa.Range)
+	return ok && sameValue(rg.X, src)
+}
+
 // resultOf returns the Extract of result n of a multi-value call, or the call itself.
 func resultOf(c ssa.CallInstruction, n int) ssa.Value {
 	for _, v := range resultN(c, n) {
@@ -230,34 +323,78 @@ func c31(r *Run) {
 	r.rule("C31.R3", "K6", "eviction covers every cached height <= new height - window (exact height only for the direct successor); skipped only on wrap", 4)
 	r.rule("C31.R4", "K1", "Notify: cache then store, store error returned; storeBlock: Put(h) and Delete(h - window) in one batch, Write is the only success exit", 5)
 	r.rule("C31.R5", "K1", "initBlocks re-inserts every stored block; decode and iterator errors returned; range trim ends at last - window", 4)
+	r.rule("C31.R7", "K6", "a block below the last height never moves the window (last height, evictions) and is admitted only while still inside it", 2)
 	r.rule("C31.R6", "K6", "getters: found only with data of the block at the cached height/position; latest not found only before any block", 5)
 
 	r.guardedBy(w, lockSpec{Rule: "C31.R1", Owner: pkgIdx + ".Indexer", Fields: []string{"blockIDToHeight", "blockHeightToBlock", "txCache", "lastHeight"}, Mutex: "mu", Pkgs: []string{pkgIdx},
-		HeldByCaller: map[string]int{nmIdx + "insertBlockIntoCache": 2, nmIdx + "evictBlockFromCache": 2, nmIdx + "getBlockByHeight": 1},
+		HeldByCaller: map[string]int{nmIdx + "insertBlockIntoCache": 2, nmIdx + "evictBlockFromCache": 2, nmIdx + "cacheBlock": 2, nmIdx + "getBlockByHeight": 1},
 		ExemptFn:     map[string]string{nmIdx + "initBlocks": "runs inside NewIndexer before the indexer is published", pkgIdx + ".NewIndexer": "constructor"},
 		MinSites:     8})
 
 	ins := r.fn(w, "C31.R2", nmIdx+"insertBlockIntoCache")
 	H := "p1.Block.Block.Hght"
 	if ins != nil {
-		uncond := func(rule, cons, pat string) {
-			es := findEffects(ins, pat)
-			okk := len(es) == 1
-			if okk {
-				// recorded for every inserted block: reached on every path from entry to return
-				if found, _ := pathExists(point{ins.Blocks[0], 0}, func(i ssa.Instruction) bool { _, ok := i.(*ssa.Return); return ok }, isInstr(es[0].Ins), nil); found {
-					okk = false
+		// the three map updates are either inline or in the helper every admitting path calls
+		cb := w.Fn(nmIdx + "cacheBlock")
+		isCache := func(i ssa.Instruction) bool { return false }
+		var cacheCalls []ssa.Instruction
+		if cb == nil {
+			cb = ins
+		} else {
+			r.saw(cb)
+			for _, c := range callsNamed(ins, nmIdx+"cacheBlock") {
+				if a := callArgs(c); len(a) == 2 && term(a[0]) == "p0" && term(a[1]) == "p1" {
+					cacheCalls = append(cacheCalls, c)
 				}
 			}
-			r.check(okk, rule, cons, w.rel(ins.Pos()), pat, "not recorded for every inserted block: "+pat)
+			isCache = isAnyInstr(cacheCalls...)
+		}
+		// a block that already left the window (repeated delivery of an old block) is the only one not admitted
+		leftWindow := predTrueEdges(ins, []string{"p0.blockWindow <= (p0.lastHeight - " + H + ")"})
+		older := predTrueEdges(ins, []string{H + " < p0.lastHeight"})
+		blockedLeft := map[edgeKey]bool{}
+		for _, e := range leftWindow {
+			blockedLeft[e] = true
+		}
+		blockedOlder := map[edgeKey]bool{}
+		for _, e := range older {
+			blockedOlder[e] = true
+		}
+		uncond := func(rule, cons, pat string) {
+			es := findEffects(cb, pat)
+			okk := len(es) == 1
+			if okk {
+				// recorded for every admitted block: reached on every path from entry to return
+				if found, _ := pathExists(entry(cb), isReturn, isInstr(es[0].Ins), nil); found {
+					okk = false
+				}
+				if okk && cb != ins {
+					if found, _ := pathExists(entry(ins), isReturn, isCache, blockedLeft); found {
+						okk = false
+					}
+				} else if okk && len(blockedLeft) > 0 {
+					if found, _ := pathExists(entry(ins), isReturn, isInstr(es[0].Ins), blockedLeft); found {
+						okk = false
+					}
+				}
+			}
+			r.check(okk, rule, cons, w.rel(cb.Pos()), pat, "not recorded for every admitted block: "+pat)
 		}
 		uncond("C31.R2", "insert:id->height", "mapupdate p0.blockIDToHeight[(*chain.StatelessBlock).GetID(p1.Block)] = "+H)
 		uncond("C31.R2", "insert:height->block", "mapupdate p0.blockHeightToBlock["+H+"] = p1")
-		uncond("C31.R2", "insert:lastHeight", "store p0.lastHeight = "+H)
-		txs := findEffects(ins, "mapupdate p0.txCache[(*chain.Transaction).GetID(p1.Block.Block.Txs[*])] = alloc(complit)")
-		okk := len(txs) == 1 && len(findEffects(ins, "store alloc(complit).blkHeight = "+H)) == 1
+		// the last height follows every block that is not below it
+		lh := findEffects(ins, "store p0.lastHeight = "+H)
+		okL := len(lh) == 1
+		if okL {
+			if found, _ := pathExists(entry(ins), isReturn, isInstr(lh[0].Ins), blockedOlder); found {
+				okL = false
+			}
+		}
+		r.check(okL, "C31.R2", "insert:lastHeight", w.rel(ins.Pos()), "store p0.lastHeight = "+H, "the last height is not recorded for every block at or above it: store p0.lastHeight = "+H)
+		txs := findEffects(cb, "mapupdate p0.txCache[(*chain.Transaction).GetID(p1.Block.Block.Txs[*])] = alloc(complit)")
+		okk := len(txs) == 1 && len(findEffects(cb, "store alloc(complit).blkHeight = "+H)) == 1
 		if okk {
-			idx := findEffects(ins, "store alloc(complit).index = *")
+			idx := findEffects(cb, "store alloc(complit).index = *")
 			okk = len(idx) == 1 && strings.Contains(txs[0].Str, "Txs["+strings.TrimPrefix(idx[0].Str, "store alloc(complit).index = ")+"]")
 			for _, c := range txs[0].Conds() {
 				if !strings.Contains(c, "builtin.len(p1.Block.Block.Txs)") {
@@ -265,7 +402,45 @@ func c31(r *Run) {
 				}
 			}
 		}
-		r.check(okk, "C31.R2", "insert:every-tx->(height,position)", w.rel(ins.Pos()), "", "not every transaction of the block is recorded with the block's height and its own position")
+		r.check(okk, "C31.R2", "insert:every-tx->(height,position)", w.rel(cb.Pos()), "", "not every transaction of the block is recorded with the block's height and its own position")
+
+		// R7: repeated delivery of a block below the latest one never moves the window
+		var moves []ssa.Instruction
+		for _, e := range effectsOf(ins) {
+			if strings.HasPrefix(e.Str, "store p0.lastHeight = ") || strings.HasPrefix(e.Str, "call (*api/indexer.Indexer).evictBlockFromCache(p0, ") || strings.HasPrefix(e.Str, "call builtin.delete(p0.") {
+				moves = append(moves, e.Ins)
+			}
+		}
+		if len(older) == 0 {
+			r.bad("C31.R7", "insert:window-never-moves-back", w.rel(ins.Pos()), "insertBlockIntoCache has no test for a block below the last height: a repeated delivery of an older block lowers lastHeight (GetLatestBlock regresses) and evicts relative to the older block")
+		} else {
+			okM := len(moves) > 0
+			why := ""
+			for _, e := range older {
+				for _, m := range moves {
+					if found, _ := pathExists(point{ins.Blocks[e[0]].Succs[e[1]], 0}, isInstr(m), nil, nil); found {
+						okM = false
+						why = describe(m)
+					}
+				}
+			}
+			r.check(okM, "C31.R7", "insert:window-never-moves-back", w.rel(ins.Pos()), fmt.Sprintf("%d window-moving effects, none reachable once %s < p0.lastHeight", len(moves), H), "for a block below the last height the window is still moved: "+why)
+		}
+		if len(leftWindow) == 0 {
+			r.bad("C31.R7", "insert:left-window-not-readmitted", w.rel(ins.Pos()), "a repeated delivery of a block that already left the window is admitted again: blocks and transactions older than the window are served until the next restart")
+		} else {
+			okA := true
+			for _, e := range leftWindow {
+				isAdmit := isCache
+				if cb == ins {
+					isAdmit = func(i ssa.Instruction) bool { _, ok := i.(*ssa.MapUpdate); return ok }
+				}
+				if found, _ := pathExists(point{ins.Blocks[e[0]].Succs[e[1]], 0}, isAdmit, nil, nil); found {
+					okA = false
+				}
+			}
+			r.check(okA, "C31.R7", "insert:left-window-not-readmitted", w.rel(ins.Pos()), "no admission reachable once p0.blockWindow <= (p0.lastHeight - "+H+")", "a block that already left the window can still be admitted")
+		}
 
 		// R3: eviction calls
 		var evs []*effect
@@ -365,7 +540,10 @@ func c31(r *Run) {
 			outs := returnOutcomes(nt)
 			okk := len(outs) > 0
 			for _, o := range outs {
-				if !(len(o.Vals) == 1 && sameValue(o.Vals[0], sc.Value())) {
+				stored := len(o.Vals) == 1 && sameValue(o.Vals[0], sc.Value())
+				// the store is skipped only for a block the cache refused (it already left the window)
+				refused := len(o.Vals) == 1 && isNilConst(o.Vals[0]) && ic.Value() != nil && hasStr(o.Conds, "!"+term(ic.Value()))
+				if !stored && !refused {
 					okk = false
 				}
 			}
@@ -415,6 +593,24 @@ func c31(r *Run) {
 			r.check(okk, "C31.R5", "initBlocks:every-stored-block", r.at(w, ic), "", "a stored block can be skipped at start-up")
 		} else {
 			r.missing("C31.R5", "initBlocks:shape", "UnmarshalExecutedBlock / insertBlockIntoCache / Iterator.Error not found exactly once")
+		}
+		// the block reloaded at start-up equals the one that was notified: the encoding drops an empty results
+		// field (genesis), so the decoder must restore the empty value on every success path
+		if ud := w.Fn(pkgChain + ".UnmarshalExecutedBlock"); ud != nil {
+			r.saw(ud)
+			nilEdges := predTrueEdges(ud, []string{"*.ExecutionResults == nil"})
+			st := findEffects(ud, "store *.ExecutionResults = alloc(complit)")
+			okk := len(nilEdges) > 0 && len(st) == 1
+			if okk {
+				for _, e := range nilEdges {
+					if found, _ := pathExists(point{ud.Blocks[e[0]].Succs[e[1]], 0}, isReturn, isInstr(st[0].Ins), nil); found {
+						okk = false
+					}
+				}
+			}
+			r.check(okk, "C31.R5", "UnmarshalExecutedBlock:empty-results-restored", w.rel(ud.Pos()), "", "a stored block whose execution results encode to nothing (the genesis block) is reloaded with nil results: the answer for that height changes across a restart")
+		} else {
+			r.missing("C31.R5", "UnmarshalExecutedBlock", "decoder not found")
 		}
 		dr := findEffects(ib, "call (*internal/pebble.Database).DeleteRange(p0.blockDB, api/indexer.blockEntryKey(0), api/indexer.blockEntryKey(*))")
 		if len(dr) == 1 {
